@@ -17,6 +17,18 @@ CLAIMED = {
         "technique": "Lean 4 proof (spec laws, B+tree routing refinement) + differential correspondence against the real Table API",
         "design_ref": "DESIGN.md §6 C04",
     },
+    "C09": {
+        "text": "Lean theorems about MultiSpec (sorted map from keys to non-empty strictly sorted value sets), for all built-in key and value "
+                "types (comparator laws instantiated from C15), all maps and pairs: well-formedness preserved by insert/remove/remove_all, the "
+                "returned flag is exactly pair presence and re-inserting a present pair changes nothing (no duplicate pairs), values of a key "
+                "are strictly sorted, len counts pairs, a key disappears exactly with its last value, other keys untouched. The real "
+                "MultimapTable (inline and subtree representations: bulk inserts of up to 3000 values per key and bulk removals force both "
+                "transitions) is compared answer by answer and by committed contents with MultiSpec executed by the Lean driver; nested "
+                "sorted-vector oracle evaluates the property on the implementation alone.",
+        "note": NOTE + "; the inline/subtree representation switch of multimap_btree.rs is not modelled in Lean, both representations are held to the same spec by the correspondence run",
+        "technique": "Lean 4 proof (multimap spec laws) + differential correspondence against the real MultimapTable API",
+        "design_ref": "DESIGN.md §6 C09",
+    },
     "C15": {
         "text": "Lean theorems over ALL key-type descriptors (nested arbitrarily) and all valid encodings: the comparator is a total preorder "
                 "respecting equality (pairs and triples), the separator of a<b is a valid encoding s with a<=s<b and len(s)<=len(a), branch "
